@@ -758,7 +758,14 @@ def _run(w, plan):
                 return
             sim.record("op", "commit", inc.n)
             sim.mark("op", "commit")
-            d = c.commit()
+            try:
+                d = c.commit()
+            except OperationInProgress:
+                # commit() from a waiter's cancellation callback inside stop(): the consumer refuses synchronously while
+                # its cancelled request is still registered - a refusal all the same, nothing is sent
+                res.probe("commit_refused_by_raising")
+                sim.record("commit_refused")
+                return
             j = counters["commit_result"]
             counters["commit_result"] += 1
 
